@@ -61,6 +61,25 @@ def records_case(draw, writer):
                 segs.append(("field", draw(st.sampled_from(pool)), draw(st.sampled_from(["", ">10", "<5", "^8"]))))
             else:
                 segs.append(("lit", draw(st.sampled_from(["\\n", "\\t", "\\r"]))))
+        # replacement fields that are more than a bare name: attribute access, indexing, nested spec
+        fl = [f for f in descs[0][1]]
+        for _ in range(draw(st.integers(0, 2))):
+            if not fl:
+                break
+            t, n = fl[draw(st.integers(0, len(fl) - 1))]
+            if t == "datetime":
+                segs.append(("expr", n, draw(st.sampled_from([".year", ".microsecond", ".tzinfo"])), ""))
+            elif t.endswith("[]") or t in ("stringlist", "string", "wstring", "bytes"):
+                segs.append(("expr", n, draw(st.sampled_from(["[0]", "[1]"])), ""))
+            elif t in ("varint", "uint16", "uint32", "filesize"):
+                segs.append(("expr", n, draw(st.sampled_from([".real", ".imag"])), draw(st.sampled_from(["", ">6"]))))
+                segs.append(("nested", n, draw(st.sampled_from(allnames))))
+            elif t == "uri":
+                segs.append(("expr", n, draw(st.sampled_from([".scheme", ".hostname", ".filename"])), ""))
+            elif t == "path":
+                segs.append(("expr", n, draw(st.sampled_from([".name", ".parent", ".suffix"])), ""))
+            elif t == "digest":
+                segs.append(("expr", n, draw(st.sampled_from([".md5", ".sha256"])), ""))
         case["template"] = segs if draw(st.booleans()) else None
         case.pop("fields")
         case.pop("exclude")
@@ -210,8 +229,16 @@ def check_text(case, ctx):
         p = os.path.join(tmp, "o.txt")
         spec = None
         if segs is not None:
-            spec = "".join(s[1].replace("{", "{{").replace("}", "}}") if s[0] == "lit" else "{%s%s}" % (s[1], (":" + s[2]) if s[2] else "")
-                           for s in segs)
+            def seg_src(s):
+                if s[0] == "lit":
+                    return s[1].replace("{", "{{").replace("}", "}}")
+                if s[0] == "field":
+                    return "{%s%s}" % (s[1], (":" + s[2]) if s[2] else "")
+                if s[0] == "expr":
+                    return "{%s%s%s}" % (s[1], s[2], (":" + s[3]) if s[3] else "")
+                return "{%s:>{%s}}" % (s[1], s[2])  # nested: the width comes from another field
+
+            spec = "".join(seg_src(s) for s in segs)
 
         def write():
             w = TextWriter(p, format_spec=spec)
@@ -231,6 +258,22 @@ def check_text(case, ctx):
                 for s in segs:
                     if s[0] == "lit":
                         line += s[1].replace("\\r", "\r").replace("\\n", "\n").replace("\\t", "\t")
+                    elif s[0] in ("expr", "nested"):
+                        # Python's own meaning of the replacement field, evaluated piece by piece
+                        if s[1] not in r.__slots__ or (s[0] == "nested" and s[2] not in r.__slots__):
+                            ctx.cls("undefined:expr-on-missing")
+                            return
+                        try:
+                            v = getattr(r, s[1])
+                            if s[0] == "expr":
+                                v = getattr(v, s[2][1:]) if s[2].startswith(".") else v[int(s[2][1:-1])]
+                                line += format(v, s[3])
+                            else:
+                                line += format(v, ">" + format(getattr(r, s[2]), ""))
+                        except Exception:
+                            ctx.cls("undefined:expr-not-applicable")
+                            return
+                        ctx.cls("template:expr")
                     else:
                         name, fs = s[1], s[2]
                         if name in r.__slots__:
